@@ -16,7 +16,7 @@ def run(ctx):
         "contract (path: '+' unsafe; path_safe: '/' and '%' ignored; query_string: the only qs reader); (K4) each decoded "
         "accessor applies that unquoter to the raw text of its own component; (K2/T4) the write side uses non-requoting "
         "quoters that escape '%' (and '+ & = ;' for query pairs) and, in both implementations, write every character as its UTF-8 escapes (shared quoter audit); the re-quoter "
-        "used for query delimiters escapes '+ = & ;'. (PQ-TAINT) the pairs behind .query are never pre-filled with a caller-supplied query object that did not pass a serialiser. Not decided: the slice arithmetic that flushes a broken UTF-8 run.")
+        "used for query delimiters escapes '+ = & ;'. (IM13, decoded keys) no function writes a decoded view into the cache of a URL it did not create. (PQ-TAINT) the pairs behind .query are never pre-filled with a caller-supplied query object that did not pass a serialiser. Not decided: the slice arithmetic that flushes a broken UTF-8 run.")
     model = ctx.model
     cfgs = configurations(model)
     # the write side ("supplied text reads back unchanged") goes through both quoters: the shared audit, with the rules that
@@ -42,6 +42,10 @@ def run(ctx):
     k4(ctx, K)
     k2_k3(ctx, K)
     k1(ctx, K)      # supplied decoded text reaches its slot through exactly one quoter of that role
+    from ..rules import immut as _immut
+    # a decoded view planted in the cache of a URL the writer did not create (the memoised constructors hand one object to every
+    # caller) is not the accessor's own decoding of that URL's raw component
+    _immut.im13(ctx, only_keys=("user", "password", "path", "path_safe", "parts", "name", "suffix", "query", "query_string", "fragment", "_parsed_query"))
     from ..rules.pickle import pq_taint
     pq_taint(ctx)   # .query is parsed from the stored text: nobody pre-fills its pairs with the caller's query object as supplied
     # the write side: quoters that receive decoded text escape '%' (and the pair quoter '+ & = ;')
